@@ -169,6 +169,14 @@ class FamilyC09:
                 for b in r.sample(ls, 40):
                     xs.append(["and", a, b])
                     xs.append(["or", a, ["not", b]])
+        # filters composed programmatically (functools.reduce over a few hundred terms): left-deep chains of 400
+        la, lb = ["tag", hx("a"), ["cmp", "eq", "s:" + hx("x")]], ["field", hx("f"), ["cmp", "gt", "n:0"]]
+        for op, first in (("or", la), ("and", lb), ("or", ["not", lb])):
+            x = first
+            for k in range(399):
+                x = [op, x, la if k % 2 else lb]
+            xs.append(x)
+        xs.append(["not", xs[-3]])
         return xs
 
     def run(self, tier, model_ok, search):
